@@ -19,14 +19,17 @@ ROLES = {
     "module": ("none", "read", "assign", "aug", "walrus", "for", "def", "class", "import"),
     "function": ("none", "read", "assign", "aug", "walrus", "for", "def", "class", "import", "param",
                  # every kind of parameter is a local of the function (captured by inner scopes like any other)
-                 "param-star", "param-kwstar", "param-kwonly", "param-posonly", "param-default", "global-assign",
+                 "param-star", "param-kwstar", "param-kwonly", "param-posonly", "param-default",
+                 # a default value is evaluated in the ENCLOSING scope: it reads that scope's variable, also under the same name
+                 "default-read", "default-same", "kwdefault-same", "global-assign",
                  "global-read", "nonlocal-assign", "nonlocal-read", "nonlocal-aug", "late-assign",
                  # a (never executed) mention of __class__ BEFORE the name is used: in a method the implicit __class__ cell
                  # then precedes the name in the list of free variables
                  "classref-read", "classref-nonlocal-assign", "classref-nonlocal-aug"),
     "class": ("none", "read", "assign", "aug", "walrus", "for", "def", "class", "import", "global-assign", "global-read",
               "nonlocal-assign", "nonlocal-read", "late-assign"),
-    "lambda": ("none", "read", "param", "walrus", "param-default", "param-star", "param-kwstar", "param-kwonly", "param-posonly"),
+    "lambda": ("none", "read", "param", "walrus", "param-default", "param-star", "param-kwstar", "param-kwonly", "param-posonly",
+               "default-read", "default-same"),
     "comp": ("none", "read", "target", "walrus", "iter-read", "iter-target"),
 }
 
@@ -71,7 +74,8 @@ class Render:
             "class": [f"class {x}:", f"    v = {t}", rd],
             "import": [f"import math as {x}", rd],
             "param": [rd], "param-star": [rd], "param-kwstar": [rd], "param-kwonly": [rd], "param-posonly": [rd],
-            "param-default": [rd],
+            "param-default": [rd], "default-same": [rd], "kwdefault-same": [rd],
+            "default-read": [f"print({sid}, 'd', show(_d{sid}))", f"print({sid}, 'r', show({x}))"],
             "global-assign": [f"global {x}", f"{x} = {t}", rd],
             "global-read": [f"global {x}", f"print({sid}, 'r', show({x}))"],
             "nonlocal-assign": [f"nonlocal {x}", f"{x} = {t}", rd],
@@ -117,6 +121,12 @@ class Render:
                 return [f"def f{sid}({x}, /):"] + ind + [f"f{sid}({self.tag()})"]
             if node.role == "param-default":
                 return [f"def f{sid}({x}={self.tag()}):"] + ind + [f"f{sid}()"]
+            if node.role == "default-read":
+                return [f"def f{sid}(_d{sid}={x}):"] + ind + [f"f{sid}()"]
+            if node.role == "default-same":
+                return [f"def f{sid}({x}={x}):"] + ind + [f"f{sid}()"]
+            if node.role == "kwdefault-same":
+                return [f"def f{sid}(*, {x}={x}):"] + ind + [f"f{sid}()"]
             return [f"def f{sid}():"] + ind + [f"f{sid}()"]
         return [f"class C{sid}:"] + ind
 
@@ -137,7 +147,11 @@ class Render:
             items.append(f"print({sid}, 'i', show(_i{sid}))")
         if r in ("read", "iter-read"):
             items.append(f"print({sid}, 'r', show({x}))")
-        elif r in ("param", "target", "param-default", "iter-target", "param-star", "param-kwstar", "param-kwonly", "param-posonly"):
+        if r == "default-read":
+            items.append(f"print({sid}, 'd', show(_d{sid}))")
+            items.append(f"print({sid}, 'r', show({x}))")
+        elif r in ("param", "target", "param-default", "iter-target", "param-star", "param-kwstar", "param-kwonly", "param-posonly",
+                   "default-same"):
             items.append(f"print({sid}, 'a', show({x}))")
         elif r == "walrus":
             items.append(f"print({sid}, 'w', ({x} := {t}))")
@@ -152,6 +166,10 @@ class Render:
                 return f"(lambda {x}: {body})({t})"
             if r == "param-default":
                 return f"(lambda {x}={t}: {body})()"
+            if r == "default-read":
+                return f"(lambda _d{sid}={x}: {body})()"
+            if r == "default-same":
+                return f"(lambda {x}={x}: {body})()"
             # every kind of parameter binds its name in the lambda
             if r == "param-star":
                 return f"(lambda *{x}: {body})({t})"
